@@ -302,6 +302,12 @@ def h_metrics(ctx, ntrades=2, nbal=3, ratios=True, symbal=1, symstart=True, bals
     dd = mn([cum[i] / run[i] for i in range(len(cum))]) - 1
     P(ctx.equal(m['max_drawdown'], dd * 100), 'max-drawdown-definition')
     P(m['max_drawdown'] <= 0, 'max-drawdown-never-positive')
+    # Calmar = annual return / |maximum drawdown| (both as reported, in percent); 0 by convention when there is no drawdown.  The
+    # fractional power inside the annual return stays an uninterpreted term: the identity is linear in it.
+    cal, ar, mdd = m.get('calmar_ratio'), m.get('annual_return'), m['max_drawdown']
+    if cal is not None and ar is not None and not (_isnan(cal) or _isnan(ar)):
+        P(Or(And(mdd == 0, cal == 0), And(Not(mdd == 0), close_to(cal * (-mdd), ar, sx.sabs(ar) + 1.0 if sx.is_sym(ar) else abs(ar) + 1.0, tol=1e-9))),
+          'calmar-is-annual-return-over-max-drawdown')
     K = float(np.sqrt(365)) ** 2  # the code multiplies by the double sqrt(365): fold the constant the same way
     mean = 0.0
     for r in rets:
